@@ -40,7 +40,8 @@ CONSTANTS
   Bug_RecoverSkipsOlderWal,    \* recovery replays only the newest WAL
   Bug_ReuseAfterTornTail,      \* a log with a partial trailing record is reused for appending
   Bug_WriteErrorSwallowed,     \* a failed WAL append is acknowledged as success
-  Bug_ManifestErrorSwallowed   \* a failed manifest append is treated as installed
+  Bug_ManifestErrorSwallowed,  \* a failed manifest append is treated as installed
+  Bug_FileCounterNotRestored   \* recovery takes the file-number counter from the manifest only
 
 VARIABLES
   \* ---- disk
@@ -183,7 +184,10 @@ ReadMan ==
          st == FoldMan(recs, [ver |-> {}, logWal |-> 0, next |-> 1]) IN
      /\ recs # <<>>                       \* an unreadable manifest: open fails (stays "rec")
      /\ ver' = st.ver /\ logWal' = st.logWal
-     /\ nextFile' = Max({st.next} \cup DOMAIN wal \cup DOMAIN tab \cup DOMAIN man)
+     \* the counter continues after everything the manifest recorded and every log replayed
+     \* (mark_file_number_used); numbers of files that are about to be deleted may be reused
+     /\ nextFile' = IF Bug_FileCounterNotRestored THEN Max({st.next, cur})
+                    ELSE Max({st.next, cur} \cup {w \in DOMAIN wal : w >= st.logWal})
      /\ manNo' = IF reuseOpt /\ (CleanLog(man[cur]) \/ Bug_ReuseAfterTornTail) THEN cur ELSE 0
      /\ \A t \in st.ver : t \in DOMAIN tab /\ tab[t].done    \* live tables must exist
      /\ LET ws == {w \in DOMAIN wal : w >= st.logWal} IN
